@@ -57,23 +57,23 @@ package martian
 //@ func (*Proxy).roundTrip
 //@ trusted
 //@ modifies *, upstream()
-//@ preserves proxyConn.* Proxy.* bufio.ReadWriter.*
+//@ preserves proxyConn.* Proxy.* bufio.ReadWriter.* http.Response.StatusCode http.Response.Request http.Request.Method http.Response.Header http.Request.Header http.Request.URL http.Request.Body http.Response.Body
 //@ ensures upstream() == old(upstream()) + 1
 //@ ensures result1 == nil ==> result0 != nil && result0.Body != nil && result0.Header != nil
 
 //@ func (*Proxy).Connect
 //@ trusted
 //@ modifies *, upstream()
-//@ preserves proxyConn.* Proxy.* bufio.ReadWriter.*
+//@ preserves proxyConn.* Proxy.* bufio.ReadWriter.* http.Response.StatusCode http.Response.Request http.Request.Method http.Response.Header http.Request.Header http.Request.URL http.Request.Body http.Response.Body
 //@ ensures upstream() == old(upstream()) + 1
-//@ ensures result2 == nil ==> result0 != nil && result0.Header != nil && result0.Body != nil && result1 != nil
-//@ ensures result0 != nil ==> result0.Body != nil
+//@ ensures cerr == nil ==> res != nil && res.Header != nil && res.Body != nil && crw != nil
+//@ ensures res != nil ==> res.Body != nil && res.Request == req && res.Header != nil
 
 // Locally generated error responses are never 1xx/2xx.
 //@ func (*Proxy).errorResponse
 //@ trusted
 //@ modifies *
-//@ preserves proxyConn.* Proxy.* bufio.ReadWriter.*
+//@ preserves proxyConn.* Proxy.* bufio.ReadWriter.* http.Response.StatusCode http.Response.Request http.Request.Method http.Response.Header http.Request.Header http.Request.URL http.Request.Body http.Response.Body
 //@ ensures result != nil && result.Header != nil && result.Request == req && result.StatusCode >= 400
 
 //@ func maybeConnectErrorResponse
@@ -81,7 +81,18 @@ package martian
 //@ pure
 //@ ensures result != nil ==> result.Header != nil && result.StatusCode / 100 != 2 && result.StatusCode != 101 && result.Request != nil
 
-//@ func (*Proxy).shouldMITM, (*Proxy).fixRequestScheme, upgradeType, shouldTerminateTLS, isClosedConnError, proxyutil.Warning
+// (the MITM filter is a user-supplied predicate)
+//@ func (*Proxy).shouldMITM
+//@ trusted
+//@ pure
+//@ ensures result ==> p.MITMConfig != nil
+
+//@ func (*bufio.Reader).Buffered
+//@ trusted
+//@ pure
+//@ ensures result >= 0
+
+//@ func (*Proxy).fixRequestScheme, upgradeType, shouldTerminateTLS, isClosedConnError, proxyutil.Warning
 //@ trusted
 //@ modifies *
 //@ preserves proxyConn.* Proxy.* bufio.ReadWriter.* http.Response.StatusCode http.Response.Request http.Request.Method http.Response.Header http.Request.Header http.Request.URL http.Request.Body http.Response.Body
@@ -155,12 +166,14 @@ package martian
 //@ property C13 C02 C11
 //@ requires p != nil && p.Proxy != nil && p.conn != nil && p.brw != nil && p.brw.Writer != nil && res != nil && res.Request != nil && res.Header != nil
 //@ modifies *, nWrote(), wroteStatus(), sawClosing()
+//@ preserves proxyConn.Proxy proxyConn.brw proxyConn.conn Proxy.* bufio.ReadWriter.* http.Response.StatusCode http.Response.Request http.Request.Method
 //@ ensures nWrote() == old(nWrote()) || nWrote() == old(nWrote()) + 1
 //@ ensures !deferredReport(old(res.Request.Method), old(res.StatusCode)) ==> nWrote() == old(nWrote()) + 1 && wroteStatus() == old(res.StatusCode)
 //@ ensures nWrote() == old(nWrote()) + 1 ==> wroteStatus() == old(res.StatusCode)
 //@ ensures deferredReport(old(res.Request.Method), old(res.StatusCode)) && nWrote() == old(nWrote()) + 1 ==> result != nil
 //@ ensures sawClosing() ==> result != nil
-//@ ensures old(res.Request.Close) && !(old(res.Request.Method) == "CONNECT" && old(res.StatusCode) / 100 == 2) ==> result != nil
+//@ ensures deferredReport(old(res.Request.Method), old(res.StatusCode)) && !sawClosing() && nWrote() == old(nWrote()) ==> result == nil
+//@ ensures old(res.Request.Close) && !deferredReport(old(res.Request.Method), old(res.StatusCode)) ==> result != nil
 
 // writeErrorResponse: a locally generated (or relayed upstream-proxy) error is
 // reported exactly once.
@@ -168,6 +181,7 @@ package martian
 //@ property C13 C12
 //@ requires p != nil && p.Proxy != nil && p.conn != nil && p.brw != nil && p.brw.Writer != nil && req != nil
 //@ modifies *, nWrote(), wroteStatus(), sawClosing()
+//@ preserves proxyConn.Proxy proxyConn.brw proxyConn.conn Proxy.* bufio.ReadWriter.* http.Response.StatusCode http.Response.Request http.Request.Method
 //@ ensures nWrote() == old(nWrote()) + 1
 
 // tunnel: the reply is written; whether the copy happens or not, the exchange
@@ -177,10 +191,55 @@ package martian
 //@ requires p != nil && p.Proxy != nil && p.conn != nil && p.brw != nil && p.brw.Writer != nil && res != nil && res.Request != nil && res.Header != nil
 //@ requires deferredReport(res.Request.Method, res.StatusCode)
 //@ modifies *, nWrote(), wroteStatus(), sawClosing()
-//@ ensures nWrote() == old(nWrote()) + 1
+//@ preserves proxyConn.Proxy proxyConn.brw proxyConn.conn Proxy.* bufio.ReadWriter.* http.Response.StatusCode http.Response.Request http.Request.Method
+//@ ensures !sawClosing() ==> nWrote() == old(nWrote()) + 1
+//@ ensures nWrote() == old(nWrote()) || nWrote() == old(nWrote()) + 1
 
 //@ func (*proxyConn).handleUpgradeResponse
 //@ property C13 C03
 //@ requires p != nil && p.Proxy != nil && p.conn != nil && p.brw != nil && p.brw.Writer != nil && res != nil && res.Request != nil && res.Header != nil && res.StatusCode == 101
 //@ modifies *, nWrote(), wroteStatus(), sawClosing()
-//@ ensures nWrote() == old(nWrote()) + 1 && result != nil
+//@ preserves proxyConn.Proxy proxyConn.brw proxyConn.conn Proxy.* bufio.ReadWriter.* http.Response.StatusCode http.Response.Request http.Request.Method
+//@ ensures (!sawClosing() ==> nWrote() == old(nWrote()) + 1) && result != nil
+
+// ---- the per-request handler (C13 L13.1, C04 L4.1, C11 L11.2) ----
+
+// TLS / bufio / MITM plumbing used by handleMITM (crypto and buffering are library behaviour).
+//@ func (*bufio.ReadWriter).Peek, (*bufio.Reader).Peek, (*bufio.ReadWriter).Read, (*bufio.Reader).Read, tls.Server, (*tls.Conn).HandshakeContext, (*tls.Conn).ConnectionState, (*mitm.Config).TLSForHost, (*mitm.Config).HandshakeErrorCallback, (*mitm.Config).H2Config, (*h2.Config).Proxy, (*bufio.Writer).Reset, (*bufio.Reader).Reset, io.MultiReader, bytes.NewReader, net.SplitHostPort, (net.Addr).String
+//@ trusted
+//@ modifies *
+//@ preserves proxyConn.* Proxy.* bufio.ReadWriter.* http.Response.StatusCode http.Response.Request http.Request.Method http.Response.Header http.Request.Header http.Request.URL http.Request.Body http.Response.Body
+
+// handleMITM: the 200 to the CONNECT is written and the CONNECT is reported
+// complete exactly once; no upstream is contacted on its behalf here.
+//@ func (*proxyConn).handleMITM
+//@ property C13 C04
+//@ requires p != nil && p.Proxy != nil && p.conn != nil && p.brw != nil && p.brw.Writer != nil && p.brw.Reader != nil && p.MITMConfig != nil && req != nil && req.Method == "CONNECT" && req.URL != nil
+//@ modifies *, nWrote(), wroteStatus(), sawClosing()
+//@ preserves Proxy.* http.Request.Method
+//@ ensures nWrote() == old(nWrote()) + 1 || (sawClosing() && nWrote() == old(nWrote()))
+//@ ensures upstream() == old(upstream())
+
+// handleConnectRequest: a refused CONNECT contacts nobody and is reported once;
+// an accepted one is reported once as well (by the tunnel, the MITM hand-off
+// or the error/rejection response).
+//@ func (*proxyConn).handleConnectRequest
+//@ property C13 C04
+//@ requires p != nil && p.Proxy != nil && p.conn != nil && p.brw != nil && p.brw.Writer != nil && p.brw.Reader != nil && req != nil && req.Method == "CONNECT" && req.URL != nil && req.Header != nil
+//@ modifies *, nWrote(), wroteStatus(), sawClosing(), modReqFailed(), upstream()
+//@ preserves Proxy.*
+//@ ensures nWrote() == old(nWrote()) + 1 || (sawClosing() && nWrote() == old(nWrote()))
+//@ ensures modReqFailed() ==> upstream() == old(upstream()) && nWrote() == old(nWrote()) + 1
+//@ ensures upstream() <= old(upstream()) + 1
+
+// handle: every request that was read (and not dropped because of shutdown)
+// is reported complete exactly once; a request refused by the modifier stack
+// causes no upstream activity; a request read while shutting down is not forwarded.
+//@ func (*proxyConn).handle
+//@ property C13 C04 C11
+//@ requires p != nil && p.Proxy != nil && p.conn != nil && p.brw != nil && p.brw.Writer != nil && p.brw.Reader != nil
+//@ modifies *, nRead(), nWrote(), wroteStatus(), sawClosing(), modReqFailed(), upstream()
+//@ ensures nRead() == old(nRead()) + 1
+//@ ensures nWrote() == old(nWrote()) || nWrote() == old(nWrote()) + 1
+//@ ensures upstream() <= old(upstream()) + 1
+//@ ensures upstream() == old(upstream()) + 1 ==> !modReqFailed()
